@@ -1,5 +1,6 @@
 """C19 — partition, grid, search, list and summary-statistics helpers."""
-import math, itertools
+import math, itertools, struct, sys
+from fractions import Fraction
 from vcheck import Case, hx, flist, ilist, parse_vals
 
 PID = "C19"
@@ -19,6 +20,105 @@ LEVEL_NOTE = ("Coq 8.16.1 kernel; theorems over Z/nat/lists are axiom-free, theo
               "hand-written model tied by differential correspondence (extraction with ExtrOcamlBasic only); std::nth_element/upper_bound/is_sorted modelled by their specifications")
 TOL = (1e-12, 0.0)
 TRUSTED = ["std::nth_element / std::upper_bound / std::is_sorted are modelled by their specifications (k-th smallest, first element greater than the target, adjacent order)"]
+
+
+# ---- doubles as an ordered integer line: k-ulp steps anywhere in the finite range (subnormals, powers of two, +-DBL_MAX)
+DBL_MAX = sys.float_info.max
+DBL_MIN = sys.float_info.min          # smallest normal
+ULPS = [1, 2, 3, 4, 5, 7, 10, 33, 100, 1000]
+RELS = [2.0 ** -52, 2.0 ** -51, 1e-15, 1e-14, 1e-13, 1e-12, 1e-11, 1e-10, 1e-9, 1e-8, 1e-7, 1e-6]
+
+
+def _ord(x):
+    b = struct.unpack("<q", struct.pack("<d", x))[0]
+    return b if b >= 0 else -(b & 0x7FFFFFFFFFFFFFFF)
+
+
+_OMAX = _ord(DBL_MAX)
+
+
+def _unord(i):
+    i = max(-_OMAX, min(_OMAX, i))
+    return struct.unpack("<d", struct.pack("<Q", i if i >= 0 else ((-i) | 0x8000000000000000)))[0]
+
+
+def ulp_step(x, k): return _unord(_ord(x) + k)
+def _fin(x): return max(-DBL_MAX, min(DBL_MAX, x))
+def _mid(a, b): return a / 2 + b / 2                      # cannot overflow
+def _lerp(a, b, q): return a * (1 - q) + b * q            # 0 <= q <= 1: cannot overflow
+
+
+def closest_lists(rng, n):
+    """One sorted list of n finite doubles from the whole double range; returns (class, list)."""
+    cls = rng.choice(["scaled", "scaled", "huge", "huge", "near", "near", "subnormal", "wide"])
+    if cls == "scaled":        # ordinary shapes (half-integers with exact ties, or generic reals) times 2^e, e over the whole exponent range
+        gen = rng.random() < 0.5
+        base = [rng.uniform(-8, 8) if gen else float(rng.randint(-12, 12)) * 0.5 for _ in range(n)]
+        e = rng.choice([rng.randint(-1070, 1020), rng.randint(1000, 1020), rng.randint(-1074, -1040)])
+        l = [math.ldexp(x, e) for x in base]
+    elif cls == "huge":        # elements of the order of DBL_MAX: sums and differences of two elements may exceed the double range
+        lo, hi = rng.choice([(0.25, 1.0), (-1.0, -0.25), (-1.0, 1.0), (0.5, 1.0), (-1.0, -0.5)])
+        l = [DBL_MAX * rng.uniform(lo, hi) for _ in range(n)]
+        if hi > 0 and rng.random() < 0.25: l[rng.randrange(n)] = DBL_MAX
+        if lo < 0 and rng.random() < 0.25: l[rng.randrange(n)] = -DBL_MAX
+    elif cls == "near":        # neighbours at 1..1000 ulp or at relative distance 1e-16..1e-6, anywhere in the range (also across powers of two and zero)
+        x = rng.choice([1.0, -1.0, 2.0 ** rng.randint(-1000, 1000), -(2.0 ** rng.randint(-1000, 1000)), 10 ** rng.uniform(-300, 300), -(10 ** rng.uniform(-300, 300)),
+                        0.99 * DBL_MAX, -DBL_MAX, 0.0, DBL_MIN, float(rng.randint(-6, 6))])
+        if rng.random() < 0.5: x = ulp_step(x, -rng.choice(ULPS))     # start below a power of two / zero so that the list crosses it
+        l = [x]
+        for _ in range(n - 1):
+            if rng.random() < 0.6 or x == 0.0: x = ulp_step(x, rng.choice([0] + ULPS))
+            else: x = _fin(x + abs(x) * rng.choice(RELS))
+            l.append(x)
+    elif cls == "subnormal":   # multiples of the smallest subnormal, signed zeros, the subnormal/normal border
+        l = [rng.choice([rng.randint(-20, 20) * 5e-324, 0.0, -0.0, ulp_step(DBL_MIN, rng.randint(-3, 3)), -ulp_step(DBL_MIN, rng.randint(-3, 3)), rng.uniform(-1, 1) * DBL_MIN]) for _ in range(n)]
+    else:                      # wildly mixed magnitudes in one list
+        l = [rng.choice([-1.0, 1.0]) * 10 ** rng.uniform(-323, 308) if rng.random() < 0.9 else 0.0 for _ in range(n)]
+    if n > 1 and rng.random() < 0.3:
+        for _ in range(rng.choice([1, 1, 2, n // 2])): l[rng.randrange(n)] = l[rng.randrange(n)]      # duplicates
+    return cls, sorted(l)
+
+
+def closest_targets(rng, l, m):
+    """m targets for one sorted list: on / next to elements, on / next to midpoints (geometric ladder of distances), between, outside, special values."""
+    n = len(l); out = []
+    for _ in range(m):
+        kind = rng.choice(["elem", "mid", "mid", "mid", "frac", "below", "above", "special", "uniform"])
+        if kind in ("mid", "frac") and n < 2: kind = "elem"
+        if kind == "elem":
+            t = ulp_step(rng.choice(l), rng.choice([-1, 1]) * rng.choice([0, 0] + ULPS))
+        elif kind == "mid":
+            k = rng.randrange(n - 1); a, b = l[k], l[k + 1]
+            if a == b and rng.random() < 0.8:          # prefer a pair of distinct neighbours
+                ks = [j for j in range(n - 1) if l[j] != l[j + 1]]
+                if ks: k = rng.choice(ks); a, b = l[k], l[k + 1]
+            t = _mid(a, b)
+            r = rng.random()
+            if r < 0.5: t = ulp_step(t, rng.choice([-1, 1]) * rng.choice([0] + ULPS))
+            elif r < 0.8: t = _fin(t + rng.choice([-1, 1]) * (b / 2 - a / 2) * rng.choice(RELS))     # the two distances differ by a relative 1e-16..1e-6
+        elif kind == "frac":
+            k = rng.randrange(n - 1); t = _lerp(l[k], l[k + 1], rng.randint(1, 7) / 8.0)
+        elif kind in ("below", "above"):
+            e, s = (l[0], -1) if kind == "below" else (l[-1], 1)
+            t = rng.choice([ulp_step(e, s * rng.choice(ULPS)), _fin(e + s * abs(e) * rng.choice([0.5, 1.0, 1e3, 1e300])), _fin(e + s * (l[-1] / 2 - l[0] / 2)), s * DBL_MAX, _fin(e + s * 1.0)])
+        elif kind == "special":
+            t = rng.choice([0.0, -0.0, 5e-324, -5e-324, DBL_MIN, -DBL_MIN, 1.0, -1.0, DBL_MAX, -DBL_MAX, ulp_step(DBL_MAX, -1), 0.5 * DBL_MAX, -0.5 * DBL_MAX])
+        else:
+            t = _lerp(l[0], l[-1], rng.random())
+        out.append((kind, _fin(t)))
+    return out
+
+
+def closest_wide(rng, count):
+    cs = []
+    for _ in range(count):
+        n = rng.choice([1, 2, 2, 3, 3, 4, 5, 8, 16, 33, 64])
+        cls, l = closest_lists(rng, n)
+        if n > 1 and rng.random() < 0.04:
+            rng.shuffle(l); cls = "maybe-unsorted"
+        for kind, t in closest_targets(rng, l, 3):
+            cs.append(Case(f"closest {flist(l)} {hx(t)}", ("closest", "closest-" + cls, "target-" + kind)))
+    return cs
 
 
 def generate(rng, tier):
@@ -56,6 +156,19 @@ def generate(rng, tier):
         la, lb = 10 ** rng.uniform(-200, 200), 10 ** rng.uniform(-200, 200)
         if rng.random() < 0.05: lb = la
         cs.append(Case(f"logspace {hx(la)} {hx(lb)} {steps}", ("logspace",), tol=(1e-9, 0.0)))
+    # grids at extreme scales (1e-290 .. 1e290, no intermediate under/overflow) and with nearly equal end points (1..1000 ulp, relative 1e-16..1e-6)
+    for _ in range(2000 if big else 200):
+        steps = rng.choice([0, 1, 2, 3, 4, 5, 10, 17, 100, rng.randint(2, 2000)])
+        a = rng.choice([-1, 1]) * 10 ** rng.uniform(-290, 290)
+        r = rng.random()
+        if r < 0.35: b = rng.choice([-1, 1]) * 10 ** rng.uniform(-290, 290)
+        elif r < 0.55: b = ulp_step(a, rng.choice([-1, 1]) * rng.choice(ULPS))
+        elif r < 0.8: b = a * (1 + rng.choice([-1, 1]) * rng.choice(RELS))
+        elif r < 0.9: b = 0.0
+        else: a, b = 0.0, a
+        cs.append(Case(f"linspace {hx(a)} {hx(b)} {steps}", ("linspace", "linspace-wide")))
+        la = abs(a) if a != 0.0 else 1.0; lb = abs(b) if b != 0.0 else 10 ** rng.uniform(-290, 290)
+        cs.append(Case(f"logspace {hx(la)} {hx(lb)} {steps}", ("logspace", "logspace-wide"), tol=(1e-9, 0.0)))
     # Locate_Closest_Location
     for _ in range(6000 if big else 800):
         n = rng.choice([1, 1, 2, 3, 4, 5, 8, 16, 33, 64])
@@ -73,7 +186,8 @@ def generate(rng, tier):
         elif r < 0.7: t = max(l) + rng.choice([0.0, 0.25, 3.0])
         else: t = rng.uniform(-4, 4)
         cs.append(Case(f"closest {flist(l)} {hx(t)}", ("closest", tag)))
-    for t in [0.0, -1.5, 3.0, rng.uniform(-4, 4)]:
+    cs += closest_wide(rng, 4000 if big else 450)
+    for t in [0.0, -1.5, 3.0, rng.uniform(-4, 4), DBL_MAX, -5e-324]:
         cs.append(Case(f"closest 0 {hx(t)}", ("closest", "empty")))          # guard: empty list exits
     cs.append(Case("transpose 0", ("transpose", "empty")))                  # empty list of lists -> empty list
     # list templates on ints
@@ -189,7 +303,14 @@ def predicates(c, io):
         else:
             i = v[0]
             if not (0 <= i < n): out.append(("closest:range", f"index {i} outside the list"))
-            elif any(abs(l[i] - tg) > abs(x - tg) for x in l): out.append(("closest:nearest", f"element {l[i]} at index {i} is not nearest to {tg}"))
+            else:
+                # exact distances (rationals): no overflow, no rounding.  The library compares the two rounded distances fl|a-t| and fl|b-t|
+                # (each with relative error <= 2^-53, exact in the subnormal range, monotone at overflow), so the returned element is
+                # nearest up to a factor (1+2^-53)/(1-2^-53) < 1 + 2^-51 on its distance.
+                ft = Fraction(tg); d = [abs(Fraction(x) - ft) for x in l]; dmin = min(d)
+                if d[i] > dmin * (1 + Fraction(1, 2 ** 51)):
+                    j = d.index(dmin)
+                    out.append(("closest:nearest", f"element {l[i]!r} at index {i} is not nearest to {tg!r}: element {l[j]!r} at index {j} is nearer (distance {float(dmin)!r} against {float(d[i])!r})"))
     elif op in ("lists_equal", "combine", "contains", "find_indices", "flatten", "sub_list", "transpose"):
         p = [int(x) for x in t[1:]]
         def rd(k):
